@@ -183,6 +183,94 @@ pub fn families() -> Vec<(String, Vec<Spend>)> {
     out
 }
 
+
+/// one well-formed (want = true) or malformed (want = false) condition of every kind, alone in the spend of coin
+/// (parent [1; 32], puzzle hash [2; 32], amount 1000): the verdict each rule prescribes at the boundaries of its argument
+/// encoding.  A well-formed, nil-terminated condition is accepted under every flag set; a malformed one under none.
+pub fn single_conditions() -> Vec<(String, Vec<Spend>, bool)> {
+    let mut out: Vec<(String, Vec<Spend>, bool)> = vec![];
+    let pk = chia_bls::SecretKey::from_seed(&[9; 32]).public_key().to_bytes().to_vec();
+    let coin_id = { let mut h = chia_sha2::Sha256::new(); h.update([1u8; 32]); h.update([2u8; 32]); h.update(be(1000)); h.finalize().to_vec() };
+    let one = |conds: Vec<Cond>| vec![Spend { parent: 1, amount: 1000, conds }];
+    let mut add = |name: String, conds: Vec<Cond>, want: bool| out.push((name, one(conds), want));
+    // AGG_SIG_*: 48-byte key, message of 0..=1024 bytes
+    for op in [43u16, 44, 45, 46, 47, 48, 49, 50] {
+        for (mn, msg) in [("empty", vec![]), ("one", vec![7u8]), ("max", vec![7u8; 1024])] {
+            add(format!("single/agg-sig-{op}/msg-{mn}"), vec![c(op, vec![pk.clone(), msg])], true);
+        }
+        add(format!("single/agg-sig-{op}/msg-1025"), vec![c(op, vec![pk.clone(), vec![7u8; 1025]])], false);
+        add(format!("single/agg-sig-{op}/key-47-bytes"), vec![c(op, vec![pk[..47].to_vec(), vec![7u8]])], false);
+        add(format!("single/agg-sig-{op}/key-49-bytes"), vec![c(op, vec![[pk.clone(), vec![0u8]].concat(), vec![7u8]])], false);
+        add(format!("single/agg-sig-{op}/no-message"), vec![c(op, vec![pk.clone()])], false);
+    }
+    // CREATE_COIN
+    for (an, am) in [("0", be(0)), ("1", be(1)), ("127", be(0x7f)), ("128", be(0x80)), ("1000", be(1000))] {
+        add(format!("single/create-coin/amount-{an}"), vec![c(51, vec![vec![3u8; 32], am.clone()])], true);
+        add(format!("single/create-coin/amount-{an}-hint"), vec![Cond { op: 51, args: vec![vec![3u8; 32], am], tail: 0 }], true);
+    }
+    add("single/create-coin/amount-1001-minting".into(), vec![c(51, vec![vec![3u8; 32], be(1001)])], false);
+    add("single/create-coin/puzzle-hash-31".into(), vec![c(51, vec![vec![3u8; 31], be(1)])], false);
+    add("single/create-coin/puzzle-hash-33".into(), vec![c(51, vec![vec![3u8; 33], be(1)])], false);
+    add("single/create-coin/amount-negative".into(), vec![c(51, vec![vec![3u8; 32], vec![0x80]])], false);
+    add("single/create-coin/amount-above-u64".into(), vec![c(51, vec![vec![3u8; 32], vec![1, 0, 0, 0, 0, 0, 0, 0, 0]])], false);
+    add("single/create-coin/amount-leading-zero".into(), vec![c(51, vec![vec![3u8; 32], vec![0, 1]])], false);
+    add("single/create-coin/no-amount".into(), vec![c(51, vec![vec![3u8; 32]])], false);
+    // RESERVE_FEE
+    for v in [0u64, 1, 1000] { add(format!("single/reserve-fee/{v}"), vec![c(52, vec![be(v)])], true); }
+    add("single/reserve-fee/1001-not-covered".into(), vec![c(52, vec![be(1001)])], false);
+    add("single/reserve-fee/negative".into(), vec![c(52, vec![vec![0xff]])], false);
+    // announcements: created alone; asserted together with their creation
+    for (mn, msg) in [("empty", vec![]), ("one", vec![7u8]), ("max", vec![7u8; 1024])] {
+        add(format!("single/create-coin-announcement/{mn}"), vec![c(60, vec![msg.clone()])], true);
+        add(format!("single/create-puzzle-announcement/{mn}"), vec![c(62, vec![msg.clone()])], true);
+        let ca = { let mut h = chia_sha2::Sha256::new(); h.update(&coin_id); h.update(&msg); h.finalize().to_vec() };
+        let pa = { let mut h = chia_sha2::Sha256::new(); h.update([2u8; 32]); h.update(&msg); h.finalize().to_vec() };
+        add(format!("single/assert-coin-announcement/{mn}"), vec![c(60, vec![msg.clone()]), c(61, vec![ca])], true);
+        add(format!("single/assert-puzzle-announcement/{mn}"), vec![c(62, vec![msg.clone()]), c(63, vec![pa])], true);
+    }
+    add("single/create-coin-announcement/1025".into(), vec![c(60, vec![vec![7u8; 1025]])], false);
+    add("single/create-puzzle-announcement/1025".into(), vec![c(62, vec![vec![7u8; 1025]])], false);
+    add("single/assert-coin-announcement/unmatched".into(), vec![c(61, vec![vec![5u8; 32]])], false);
+    add("single/assert-puzzle-announcement/unmatched".into(), vec![c(63, vec![vec![5u8; 32]])], false);
+    add("single/assert-coin-announcement/31-bytes".into(), vec![c(61, vec![vec![5u8; 31]])], false);
+    // concurrent spend / puzzle: the coin itself is spent in the bundle
+    add("single/assert-concurrent-spend/self".into(), vec![c(64, vec![coin_id.clone()])], true);
+    add("single/assert-concurrent-puzzle/self".into(), vec![c(65, vec![vec![2u8; 32]])], true);
+    add("single/assert-concurrent-spend/absent".into(), vec![c(64, vec![vec![5u8; 32]])], false);
+    add("single/assert-concurrent-puzzle/absent".into(), vec![c(65, vec![vec![5u8; 32]])], false);
+    // self assertions
+    add("single/assert-my-coin-id/right".into(), vec![c(70, vec![coin_id.clone()])], true);
+    add("single/assert-my-coin-id/wrong".into(), vec![c(70, vec![vec![5u8; 32]])], false);
+    add("single/assert-my-parent-id/right".into(), vec![c(71, vec![vec![1u8; 32]])], true);
+    add("single/assert-my-parent-id/wrong".into(), vec![c(71, vec![vec![5u8; 32]])], false);
+    add("single/assert-my-puzzlehash/right".into(), vec![c(72, vec![vec![2u8; 32]])], true);
+    add("single/assert-my-puzzlehash/wrong".into(), vec![c(72, vec![vec![5u8; 32]])], false);
+    add("single/assert-my-amount/right".into(), vec![c(73, vec![be(1000)])], true);
+    add("single/assert-my-amount/wrong".into(), vec![c(73, vec![be(999)])], false);
+    add("single/assert-my-amount/leading-zero".into(), vec![c(73, vec![vec![0, 0x03, 0xe8]])], false);
+    for v in [0u64, 1, 0xffff_ffff] { add(format!("single/assert-my-birth-height/{v}"), vec![c(75, vec![be(v)])], true); }
+    for v in [0u64, 1, u64::MAX] { add(format!("single/assert-my-birth-seconds/{v}"), vec![c(74, vec![be(v)])], true); }
+    add("single/assert-my-birth-height/above-u32".into(), vec![c(75, vec![be(0x1_0000_0000)])], false);
+    add("single/assert-my-birth-height/negative".into(), vec![c(75, vec![vec![0xff]])], false);
+    // time locks: "after" locks take any value (a negative one holds trivially), "before" locks must be satisfiable
+    for (op, nm, wide) in [(80u16, "seconds-relative", true), (81, "seconds-absolute", true), (82, "height-relative", false), (83, "height-absolute", false)] {
+        let max = if wide { u64::MAX } else { 0xffff_ffff };
+        for v in [0u64, 1, max] { add(format!("single/assert-{nm}/{v}"), vec![c(op, vec![be(v)])], true); }
+        add(format!("single/assert-{nm}/negative"), vec![c(op, vec![vec![0xff]])], true);
+        add(format!("single/assert-{nm}/above-range"), vec![c(op, vec![if wide { vec![1, 0, 0, 0, 0, 0, 0, 0, 0] } else { be(0x1_0000_0000) }])], false);
+    }
+    for (op, nm, wide) in [(84u16, "before-seconds-relative", true), (85, "before-seconds-absolute", true), (86, "before-height-relative", false), (87, "before-height-absolute", false)] {
+        let max = if wide { u64::MAX } else { 0xffff_ffff };
+        for v in [1u64, 2, max] { add(format!("single/assert-{nm}/{v}"), vec![c(op, vec![be(v)])], true); }
+        add(format!("single/assert-{nm}/negative"), vec![c(op, vec![vec![0xff]])], false);
+        add(format!("single/assert-{nm}/above-range"), vec![c(op, vec![if wide { vec![1, 0, 0, 0, 0, 0, 0, 0, 0] } else { be(0x1_0000_0000) }])], true);
+    }
+    // REMARK takes anything
+    add("single/remark/no-arguments".into(), vec![c(1, vec![])], true);
+    add("single/remark/arguments".into(), vec![c(1, vec![vec![7u8; 40], vec![]])], true);
+    out
+}
+
 fn fork_flags() -> Vec<(&'static str, ConsensusFlags)> {
     vec![("none", ConsensusFlags::empty()), ("cost-conditions", ConsensusFlags::COST_CONDITIONS)]
 }
@@ -289,6 +377,20 @@ fn expected_verdicts() -> Vec<(&'static str, &'static str, &'static str, bool)> 
 
 pub fn relations_ground(thorough: bool) -> EvalResult {
     let mut res = EvalResult { obligations: 0, discharged: 0, failures: vec![], samples: vec![], exhaustive: true };
+    for (name, spends, want) in single_conditions() {
+        for (fname, ff) in fork_flags() {
+            for (sname, sf) in [("lenient", ConsensusFlags::empty()), ("all-three", ConsensusFlags::NO_UNKNOWN_CONDS | ConsensusFlags::STRICT_ARGS_COUNT | ConsensusFlags::LIMIT_SPENDS)] {
+                res.obligations += 1;
+                let got = run(&spends, ff | sf).is_ok();
+                if got == want { res.discharged += 1; } else if res.failures.len() < 6 {
+                    res.failures.push(json!({"id": format!("relations_ground/{name}/{fname}/{sname}"), "function": "parse_spends",
+                        "message": format!("{name}, fork flags {fname}, {sname}: accepted = {got}, the rule for this condition says {want}"),
+                        "clause": "each condition is accepted or rejected as its rule prescribes, at the boundaries of its argument encoding",
+                        "cex": {"unit": "eval", "function": "relations_ground", "input": {"family": name, "relation": "single", "fork": fname, "strict": sname, "want": want}}}));
+                }
+            }
+        }
+    }
     {
         let fams = families();
         for (fam, fork, strict, want) in expected_verdicts() {
@@ -336,6 +438,16 @@ pub fn replay_relations(input: &Value) -> (bool, String) {
             return (got != want, format!("family {fam}, fork flags {fork}, strictness '{strict}': accepted = {got}, the rules say {want}"));
         }
         return (false, "unknown family".into());
+    }
+    if input["relation"].as_str() == Some("single") {
+        let fork = input["fork"].as_str().unwrap_or(""); let want = input["want"].as_bool().unwrap_or(true);
+        let sf = if input["strict"].as_str() == Some("all-three") { ConsensusFlags::NO_UNKNOWN_CONDS | ConsensusFlags::STRICT_ARGS_COUNT | ConsensusFlags::LIMIT_SPENDS } else { ConsensusFlags::empty() };
+        let ff = fork_flags().into_iter().find(|f| f.0 == fork).map(|f| f.1).unwrap_or(ConsensusFlags::empty());
+        if let Some((_, spends, _)) = single_conditions().into_iter().find(|f| f.0 == fam) {
+            let got = run(&spends, ff | sf).is_ok();
+            return (got != want, format!("{fam}, fork flags {fork}: accepted = {got}, the rule says {want}"));
+        }
+        return (false, "unknown single condition".into());
     }
     for (name, spends) in families() {
         if name == fam {
